@@ -6,6 +6,7 @@ import (
 	"net/http"
 	"net/url"
 	"os"
+	"reflect"
 	"sort"
 	"strconv"
 	"strings"
@@ -363,6 +364,48 @@ func fnv32(s string) uint32 {
 	return h >> 3
 }
 
+// retypeMap presents a record as one of the other Go map types a caller may hold it in: a user-defined map type,
+// or, when every value has the same primitive type, a map of that type (exact or user-defined) or of int64.
+func retypeMap(m map[string]any, k int) any {
+	if len(m) == 0 || k%2 == 0 {
+		return m
+	}
+	k /= 2
+	same := reflect.TypeOf(nil)
+	first := true
+	for _, v := range m {
+		t := reflect.TypeOf(v)
+		if first {
+			same, first = t, false
+		} else if t != same {
+			same = nil
+		}
+	}
+	if same == nil {
+		if k%2 == 0 {
+			return NamedMap(m)
+		}
+		return m
+	}
+	var out reflect.Value
+	switch same.Kind() {
+	case reflect.String:
+		out = reflect.ValueOf([]any{map[string]string{}, NamedStrMap{}}[k%2])
+	case reflect.Int:
+		out = reflect.ValueOf([]any{map[string]int{}, NamedIntMap{}, map[string]int64{}}[k%3])
+	case reflect.Float64:
+		out = reflect.ValueOf([]any{map[string]float64{}, NamedFloatMap{}}[k%2])
+	case reflect.Bool:
+		out = reflect.ValueOf([]any{map[string]bool{}, NamedBoolMap{}}[k%2])
+	default:
+		return NamedMap(m)
+	}
+	for key, v := range m {
+		out.SetMapIndex(reflect.ValueOf(key), reflect.ValueOf(v).Convert(out.Type().Elem()))
+	}
+	return out.Interface()
+}
+
 // RenderFE renders the logical record for one front end.
 func RenderFE(fe string, root *Node, logical Val) (*Rendered, error) {
 	keyOf := KeyOfFE(fe)
@@ -370,8 +413,11 @@ func RenderFE(fe string, root *Node, logical Val) (*Rendered, error) {
 	switch fe {
 	case FEMap:
 		r.Data = rekey(root, logical, keyOf)
-		r.SpecIn = r.Data
 		r.Text = JSON(logical)
+		if m, ok := r.Data.(map[string]any); ok {
+			r.Data = retypeMap(m, int(fnv32(r.Text))) // the same record as another Go map type (chosen by the record's hash)
+		}
+		r.SpecIn = r.Data
 	case FEJSON, FEHTTPJSON:
 		var sb strings.Builder
 		if err := jsonOf(root, logical, keyOf, &sb); err != nil {
